@@ -16,7 +16,9 @@ from shangrla.raire.sample_estimator import bp_estimate, cp_estimate
 
 from vmc.ref import raire as R
 
-NAMES = "ABCDEFG"
+# candidate identifiers: distinct strings, some of which are substrings / prefixes of others (as numeric ids are)
+NAMES = ["1", "12", "2", "21", "121", "3", "31"]
+LETTERS = "ABCDEFG"
 CON = "con1"
 FUNCS = {"bp": bp_estimate, "cp": cp_estimate}
 
@@ -120,7 +122,7 @@ def _idx(n, names):
     al = list(R.rankings(n))
     out = []
     for s in names:
-        r = tuple(NAMES.index(c) for c in s.split(">")) if s else ()
+        r = tuple(LETTERS.index(c) for c in s.split(">")) if s else ()
         out.append(al.index(r))
     return sorted(set(out))
 
@@ -142,14 +144,19 @@ def families(tier):
     return fam
 
 
-def weighted_profiles(types, K, W, first):
-    """profiles whose smallest type is `first`: k <= K distinct types from `types`, weights from W"""
+def weighted_profiles(types, K, W, first, part=0, parts=1):
+    """profiles whose smallest type is `first`: k <= K distinct types from `types`, weights from W;
+    the enumeration is dealt round-robin into `parts` shards (load balance only)"""
     pos = types.index(first)
     rest = types[pos + 1:]
+    i = 0
     for k in range(1, K + 1):
         for others in itertools.combinations(rest, k - 1):
             ts = (first,) + others
             for ws in itertools.product(W, repeat=k):
+                i += 1
+                if i % parts != part:
+                    continue
                 prof = []
                 for t, w in zip(ts, ws):
                     prof += [t] * w
@@ -159,6 +166,8 @@ def weighted_profiles(types, K, W, first):
 def weighted_shards(tier, only_full_k=None):
     out = []
     for name, (n, types, K, W) in families(tier).items():
-        for first in types:
-            out.append(("wt", name, first))
+        for j, first in enumerate(types):
+            parts = 16 if (n >= 5 and j < len(types) // 2) else (4 if j < len(types) // 3 else 1)
+            for part in range(parts):
+                out.append(("wt", name, first, part, parts))
     return out
